@@ -1,7 +1,7 @@
 """C06 - styles form a consistent algebra, round-trip through text, and hash consistently."""
 from hypothesis import strategies as st
 
-from ..core import Part, sut
+from ..core import Part, sut, SutError
 from ..gen import styles as GS
 
 PROP_ID = "C06"
@@ -90,18 +90,23 @@ def spell(spec, draw_order, alias_pick, spaces):
     return out
 
 
+# definitions that are rejected after some of their words were understood
+BAD_DEFINITIONS = ["bold nosuchcolour", "not b on", "u repr.number", "italic link", "strike rgb(1,2)", "on red on", "dim not", "reverse #12", "blink2 color(999)", "overline link https://x.example zzz"]
+
+
 class RoundTrip(Part):
     name = "roundtrip"
     rule = ("one style spec: parse(str(s)) == s, parse(normalize(str(s))) == s, and a definition written with documented spellings (aliases, "
-            "'not X', colour forms, 'on C', 'link URL', random word-group order, extra whitespace) parses to the keyword-built style; "
+            "'not X', colour forms, 'on C', 'link URL', random word-group order, extra whitespace) parses to the keyword-built style, also right after a rejected definition; "
             "non-trivial = >=2 attributes (one negated or aliased) plus a colour or link")
     budget = {"quick": (5, 3000), "thorough": (16, 30000)}
 
     def strategy(self, tier):
         ints = st.lists(st.integers(0, 9), min_size=1, max_size=8)
         derive = st.sampled_from(["none", "copy", "without_color", "update_link", "update_link_none", "add", "background_style"])
-        return st.builds(lambda s, o, al, sp, lead, warm, d, other: {"s": s, "order": o, "alias": al, "spaces": sp, "lead": lead, "warm": warm, "derive": d, "other": other},
-                         GS.style_spec(), ints, ints, st.lists(st.integers(0, 2), min_size=1, max_size=5), st.booleans(), st.booleans(), derive, st.sampled_from(GS.PALETTE))
+        return st.builds(lambda s, o, al, sp, lead, warm, d, other, bad: {"s": s, "order": o, "alias": al, "spaces": sp, "lead": lead, "warm": warm, "derive": d, "other": other, "bad": bad},
+                         GS.style_spec(), ints, ints, st.lists(st.integers(0, 2), min_size=1, max_size=5), st.booleans(), st.booleans(), derive, st.sampled_from(GS.PALETTE),
+                         st.one_of(st.none(), st.integers(0, len(BAD_DEFINITIONS) - 1)))
 
     def check(self, spec, ctx):
         from rich.style import Style
@@ -153,6 +158,17 @@ class RoundTrip(Part):
                 ctx.violation("roundtrip", "C06/roundtrip/derived-normalize-" + how, "normalize(str(%s of %r)) parses to another style" % (how, src))
             ctx.cls("derive:" + how + (":warm" if spec.get("warm") else ""))
         definition = spell(s, spec["order"], spec["alias"], spec["spaces"])
+        if spec.get("bad") is not None:
+            # history: a definition was rejected just before (what it had understood up to the error must not carry over)
+            from rich.errors import StyleSyntaxError
+
+            try:
+                Style.parse(BAD_DEFINITIONS[spec["bad"]])
+            except StyleSyntaxError:
+                pass
+            except Exception as e:  # noqa
+                raise SutError(e)
+            ctx.cls("after-a-rejected-definition")
         if spec["lead"]:
             definition = " " + definition + " "
         if definition.strip():
@@ -247,4 +263,116 @@ class Hashing(Part):
             ctx.cls("route:" + n)
 
 
-PARTS = [Algebra(), RoundTrip(), Hashing()]
+
+def run_strings(prog, preempt, tape, problems):
+    """Threads ask for the string form / normalised form of one shared style at the same time (parsed styles are shared objects)."""
+    import rich.style
+    from rich.style import Style
+    from ..oracles.sched import Sched, Deadlock
+
+    Style.parse.cache_clear()
+    Style.normalize.cache_clear()
+    spec = prog["style"]
+    shared = GS.build_style(spec)
+    s = Sched(dict((int(a), int(b)) for a, b in preempt), files={rich.style.__file__}, tape=tape)
+    results = []
+
+    def body(ti, ops):
+        def run():
+            for op in ops:
+                if op == "str":
+                    results.append((ti, op, str(shared)))
+                elif op == "repr":
+                    r = repr(shared)
+                    results.append((ti, op, r[len('Style.parse("'):-2] if r.startswith('Style.parse("') else None))
+                elif op == "normalize":
+                    results.append((ti, op, Style.normalize(str(shared))))
+                else:
+                    results.append((ti, op, str(shared.copy())))
+        return run
+
+    for ti, ops in enumerate(prog["threads"]):
+        s.add(body(ti, ops), "T%d" % ti)
+    try:
+        s.run(timeout=30)
+    except Deadlock as e:
+        problems.append(("roundtrip", "C06/concurrent/deadlock", str(e)))
+        return s.step, s.switch_in_rich
+    for w in s.workers:
+        if w.exc is not None:
+            problems.append(("roundtrip", "C06/concurrent/exc-%s" % type(w.exc).__name__, "%s raised %r" % (w.name, w.exc)))
+    want = GS.spec_view(spec)
+    for ti, op, text in results + [(-1, "str-afterwards", str(shared)), (-1, "normalize-afterwards", Style.normalize(str(shared)))]:
+        if text is None:
+            continue
+        try:
+            got = GS.style_view(Style.parse(text))
+        except Exception as e:  # noqa
+            got = "unparseable: %r" % (e,)
+        if got != want:
+            problems.append(("roundtrip", "C06/concurrent/%s" % op.split("-")[0], "thread %d: %s of the shared style gave %r, which parses to %r instead of %r (schedule %r)" % (ti, op, text, got, want, s.trace[:4])))
+            break
+    return s.step, s.switch_in_rich
+
+
+STRING_PROGRAMS = [
+    {"style": {"attrs": {"bold": True}, "color": "red", "bgcolor": None, "link": "https://example.org/a"}, "threads": [["str"], ["normalize"]]},
+    {"style": {"attrs": {}, "color": None, "bgcolor": "blue", "link": "https://example.org/b"}, "threads": [["str", "copy"], ["str"], ["repr"]]},
+    {"style": {"attrs": {"italic": False, "underline": True}, "color": "#00ff00", "bgcolor": None, "link": None}, "threads": [["normalize"], ["str"]]},
+]
+
+
+class ConcurrentStrings(Part):
+    name = "concurrent-strings"
+    custom = True
+    exhaustive = True
+    rule = ("3 fixed programs: 2-3 threads ask for str() / repr() / normalize() / str(copy()) of one shared style (with and without a link) at the same time, serialised by the "
+            "deterministic scheduler with preemption at every line of style.py; every single preemption (+ pairs in the thorough tier): each string obtained, and the string "
+            "form afterwards, parses back to the style; non-trivial = the schedule switched threads inside style.py")
+    budget = {"quick": (8, 1), "thorough": (16, 1)}
+
+    def run_shard(self, tier, shard, nshards, seed, stats, deadline, known):
+        import time as _t
+
+        n = nt = 0
+        found = {}
+        jobs = []
+        for pi, prog in enumerate(STRING_PROGRAMS):
+            steps, _ = run_strings(prog, [], [0], [])
+            nthreads = len(prog["threads"])
+            jobs += [(pi, [(k, c)]) for k in range(steps) for c in range(nthreads - 1)]
+            if tier == "thorough":
+                jobs += [(pi, [(a, 0), (b, c)]) for a in range(0, steps, 2) for b in range(a + 1, steps, 3) for c in range(nthreads - 1)][:8000]
+        for ji, (pi, sch) in enumerate(jobs):
+            if ji % nshards != shard:
+                continue
+            if _t.time() > deadline:
+                stats.capped = True
+                break
+            probs = []
+            _, sw = run_strings(STRING_PROGRAMS[pi], sch, [0, 1, 2], probs)
+            n += 1
+            nt += 1 if sw else 0
+            for clause, sig, detail in probs:
+                if sig not in found:
+                    found[sig] = ({"program": pi, "preempt": [list(x) for x in sch], "tape": [0, 1, 2]}, clause, detail)
+        stats.evaluations += n
+        stats.nontrivial_count_distinct += nt
+        if not stats.capped:
+            stats.done += 1
+        stats.samples.append((1, {"shard": shard, "schedules_run": n, "example": {"program": 0, "preempt": [[9, 0]]}}, "range"))
+        for sig, (spec, clause, detail) in found.items():
+            e = known.match(sig)
+            if e:
+                stats.excluded_known[e["id"]] = stats.excluded_known.get(e["id"], 0) + 1
+                continue
+            stats.found[sig] = {"spec": spec, "clause": clause, "detail": detail, "size": 1, "part": self.name}
+
+    def replay(self, spec, ctx):
+        probs = []
+        run_strings(STRING_PROGRAMS[spec["program"]], spec["preempt"], spec["tape"], probs)
+        for clause, sig, detail in probs:
+            ctx.violation(clause, sig, detail)
+
+
+PARTS = [Algebra(), RoundTrip(), Hashing(), ConcurrentStrings()]
